@@ -494,3 +494,14 @@ func (h *VerifHarness) VdrDebug() []string {
 	}
 	return out
 }
+
+// verifWriteAtomic numbers atomic metadata writes as file-system effects
+// (checks built with the rewrite "call=writeAtomic:verifWriteAtomic").  An
+// atomic write is all-or-nothing: suppressed once the process has "died",
+// never torn.
+func verifWriteAtomic(target string, data []byte) error {
+	if !vshim.Effect("martian/core/write_atomic_linux.go:0:writeAtomic", "write-atomic", target) {
+		return nil
+	}
+	return writeAtomic(target, data)
+}
